@@ -349,6 +349,26 @@ func run(r *core.Run) {
 		}
 	})
 
+	// runs: a run of N backslashes (0..70, across any fixed look-back window) before a quote, before a letter, and at the
+	// end of the string; and runs of quotes: the printer doubles every backslash, the reader must count the parity right
+	runN := int64(71)
+	r.Bound("V-string.backslash_run_lengths", runN)
+	core.ParallelRange(r, lim("V-string", runN*4), func(int) *valWorker { return &valWorker{p.get()} }, func(w *valWorker, i int64) {
+		n := int(i / 4)
+		var s string
+		switch i % 4 {
+		case 0:
+			s = strings.Repeat("\\", n) + "\""
+		case 1:
+			s = strings.Repeat("\\", n) + "a\"b"
+		case 2:
+			s = "a" + strings.Repeat("\\", n)
+		default:
+			s = strings.Repeat("\"", n) + "\\"
+		}
+		valueCase(r, w.t, &node{k: kStr, s: s}, "string-run-"+[]string{"backslashes-quote", "backslashes-letter-quote", "trailing-backslashes", "quotes-backslash"}[i%4], true, true)
+	})
+
 	phase("V-string")
 	// ------------------------------------------------------------- V-symbol
 	symLen, wideLen, signLen, edgeSymLen := 4, 2, 5, 3
